@@ -1,8 +1,11 @@
 package main
 
 import (
+	"bytes"
 	"fmt"
 	"strings"
+
+	"github.com/koykov/dyntpl"
 )
 
 // chainAst is the AST of "{%<letters>= v|m1|m2… %}": each m is `name` or `name(a, b)`; a trailing raw is the print's flag.
@@ -146,5 +149,42 @@ func init() {
 			}
 		}
 		runSessions(r, cases, outputDiffers)
+		// spellings of a key-value group (a relation on the real engine alone: the parser decides what the
+		// modifier receives): blanks after "{", before "}", around ":" and ",", single quotes — the same arguments
+		respell := []func(string) string{
+			func(b string) string { return strings.ReplaceAll(b, "}", " }") },
+			func(b string) string { return strings.ReplaceAll(b, "{", "{ ") },
+			func(b string) string { return strings.ReplaceAll(strings.ReplaceAll(b, "{", "{ "), "}", " }") },
+			func(b string) string { return strings.ReplaceAll(strings.ReplaceAll(b, ": ", ":"), ", ", ",") },
+			func(b string) string { return strings.ReplaceAll(strings.ReplaceAll(b, ":", " :"), ",", " ,") },
+			func(b string) string { return strings.ReplaceAll(b, `"`, "'") },
+		}
+		for _, body := range []string{`v|vcat({a: "1", b: w, c: "3"}, "tail")`, `v|vcat({k1: w}, {k2: "x", k3: v})`, `w|vcat({z: 9, y: v, x: -3.5})`, `v|vcat({a: "two words", b: w})|vcat({c: v})`} {
+			base := "{%= " + body + " %}"
+			kb, err, pan := regTpl(base, true)
+			if err != nil || pan != "" {
+				r.Violate("kv-spelling parse "+base, "a key-value group is rejected by Parse", map[string]any{"source": base, "error": fmt.Sprint(err), "panic": pan})
+				continue
+			}
+			for si, f := range respell {
+				alt := "{%= " + f(body) + " %}"
+				ka, err, pan := regTpl(alt, true)
+				ctxA, ctxB := dyntpl.NewCtx(), dyntpl.NewCtx()
+				for _, c := range []*dyntpl.Ctx{ctxA, ctxB} {
+					c.SetString("v", "V<1>")
+					c.SetStatic("w", int64(-7))
+				}
+				var ra, rb rendered
+				if err == nil && pan == "" {
+					ra, rb = renderSafe(ka, ctxA), renderSafe(kb, ctxB)
+				}
+				r.Count(fmt.Sprintf("kv-spelling:%d:%s", si, body), true)
+				r.Dist["kv-spelling"]++
+				if err != nil || pan != "" || ra.ErrStr() != rb.ErrStr() || !bytes.Equal(ra.Out, rb.Out) {
+					r.Violate("kv-spelling "+alt, "two spellings of the same key-value arguments render differently",
+						map[string]any{"compact": base, "respelled": alt, "compact_output": string(rb.Out), "respelled_output": string(ra.Out), "compact_error": rb.ErrStr(), "respelled_error": ra.ErrStr(), "parse_error": fmt.Sprint(err)})
+				}
+			}
+		}
 	}
 }
